@@ -26,10 +26,10 @@ ABSENT = ref.md5(b"absent-object")
 
 def universe(tier):
     objs = ["A", "B", "x", "y", "z", "w"]
-    used = ["A", "B", "x", "w", "absent", "sha256:y"]
+    used = ["A", "B", "x", "w", "absent", "sha256:y", "sha256:A"]
     if tier == "thorough":
         objs = ["A", "B", "C", "x", "y", "z", "w"]
-        used = ["A", "B", "C", "x", "w", "absent", "sha256:y", "absentdir"]
+        used = ["A", "B", "C", "x", "w", "absent", "sha256:y", "sha256:A", "absentdir", "md5-dos2unix:absentdir"]
     return objs, used
 
 
@@ -52,8 +52,10 @@ def used_infos(names):
             out.append(hi(ABSENT))
         elif n == "absentdir":
             out.append(hi(ref.tree_oid({"k": ABSENT})))
-        elif n.startswith("sha256:"):
-            out.append(hi(oid_of(n.split(":")[1]), "sha256"))
+        elif ":" in n:
+            alg, what = n.split(":")
+            v = ref.tree_oid({"k": ABSENT}) if what == "absentdir" else oid_of(what)
+            out.append(hi(v, alg))
         else:
             out.append(hi(oid_of(n)))
     return out
@@ -94,8 +96,8 @@ def run_one(kind, store, used, shallow, dry, cachemode, read_only=False):
         protected = set()
         loadable = True
         for n in used:
-            if n.startswith("sha256:"):
-                continue  # other algorithm: does not protect anything
+            if ":" in n:
+                continue  # other algorithm: protects nothing, is never expanded or loaded
             if n == "absent":
                 protected.add(ABSENT)
                 continue
